@@ -794,3 +794,54 @@ Theorem compile_factors_refuted_size_on_element_reference :
   compile_named crepaired 8 8 w_elem_ref 3 "M" "S" <> compile_named crepaired 8 8 w_elem_inl 3 "M" "S" /\
   env_ok w_elem_ref = false.
 Proof. split; [vm_compute; reflexivity|]. split; [vm_compute; intros H; discriminate H|vm_compute; reflexivity]. Qed.
+
+(** * A worked instance of the rearrangement theorem *)
+Definition ex_types : list (string * sty) :=
+  [("B", SBool);
+   ("L", SSeqOf false (SRef "B" None None) None);
+   ("R", SSeq false [mem "v" (SRef "L" (Some (Cons (BNum 1) (BVal "hi") false)) None) SMandatory;
+                     mem "f" (SRef "B" None None) (SDefault TTrue);
+                     mem "next" (SRef "R" None None) SOptional] (Some []))].
+Definition ex_one : senv := [SModule "M" "AUTOMATIC" false [] ex_types [("hi", 4)]].
+Definition ex_three : senv :=
+  [SModule "P" "AUTOMATIC" false [("Q", ["L"; "hi"]); ("M", ["B"])]
+           [("R", snd (nth 2 ex_types ("", SNull)))] [];
+   SModule "M" "AUTOMATIC" false [] [("B", SBool)] [];
+   SModule "Q" "AUTOMATIC" false [("M", ["B"])] [("L", snd (nth 1 ex_types ("", SNull)))] [("hi", 4)]].
+
+
+Lemma closed_one : closed 8 ex_one.
+Proof.
+  intros m [<-|[]] nt I. simpl in I.
+  repeat (destruct I as [<-|I]; [split; intros x Hx; simpl in Hx;
+    repeat (destruct Hx as [<-|Hx]; [do 2 eexists + eexists; vm_compute; reflexivity|]); try contradiction|]).
+  contradiction.
+Qed.
+
+Lemma closed_three : closed 8 ex_three.
+Proof.
+  intros m I. simpl in I.
+  repeat (destruct I as [<-|I]; [intros nt J; simpl in J;
+    repeat (destruct J as [<-|J]; [split; intros x Hx; simpl in Hx;
+      repeat (destruct Hx as [<-|Hx]; [do 2 eexists + eexists; vm_compute; reflexivity|]); try contradiction|]);
+    try contradiction|]).
+  contradiction.
+Qed.
+
+Lemma example_move : forall n, flatten 8 8 ex_one n "M" "R" = flatten 8 8 ex_three n "P" "R".
+Proof.
+  intros n.
+  apply (move_and_import_flatten 8 8 ex_one ex_three "AUTOMATIC" false).
+  - intros m [<-|[]]. split; reflexivity.
+  - intros m [<-|[<-|[<-|[]]]]; split; reflexivity.
+  - vm_compute. repeat constructor; simpl; intuition discriminate.
+  - vm_compute. repeat constructor; simpl; intuition discriminate.
+  - intros name t I. vm_compute in I. vm_compute. intuition.
+  - intros v z I. vm_compute in I. vm_compute. intuition.
+  - exact closed_one.
+  - exact closed_three.
+  - simpl. auto.
+  - simpl. auto.
+  - do 2 eexists. vm_compute. reflexivity.
+  - do 2 eexists. vm_compute. reflexivity.
+Qed.
